@@ -18,6 +18,7 @@ import (
 	"encoding/json"
 	"fmt"
 	"hash/fnv"
+	"iter"
 	"os"
 	"path/filepath"
 	"runtime"
@@ -64,6 +65,11 @@ type H struct {
 	bestCtx   [][]byte
 	ctxUsed   []json.RawMessage
 	ctxNote   string
+	bestPar   int
+	bestMode  string
+	pendPar   int
+	pendMode  string
+	pendCtx   []json.RawMessage
 	flushed   bool
 	cur       []*curCase
 	watchStop chan struct{}
@@ -94,6 +100,17 @@ type ReplayFile struct {
 	// in the code under test (a pool, a cache, a package-level variable).
 	Context []json.RawMessage `json:"context,omitempty"`
 	Note    string            `json:"note,omitempty"`
+	// Par > 1: the failure was seen while Par goroutines ran the case at the
+	// same time, each on its own instances; the replay does the same.
+	Par int `json:"par,omitempty"`
+	// Mode "interleave": the failure was seen while Case and Context[0] were
+	// executed in alternation, operation by operation, in one thread of
+	// control (see Interleave); the replay does the same.  Mode "par": Case
+	// and the Context cases ran on goroutines of their own at the same time.
+	// Mode "retain": a result that Context[0] had obtained and verified was no
+	// longer what it was after Case had run (see Obs.Retain); the message is
+	// about Context[0]'s result.
+	Mode string `json:"mode,omitempty"`
 }
 
 func envInt(name string, def int) int {
@@ -202,6 +219,84 @@ type Obs struct {
 	known   []string
 	// NoTriage asks the interpreter to report the raw property verdict.
 	NoTriage bool
+	// step, when set, is called by Step (interleaved execution of two cases).
+	step func()
+	// retained holds the re-validation closures registered with Retain.
+	retained []func() string
+}
+
+// Retain registers f, which must re-validate results that the case obtained
+// from the code under test and keeps (a returned string, slice or iterator
+// snapshot compared with a copy taken at once).  The kit calls f after the
+// NEXT case has run in the same thread: a result that lives in memory the
+// library recycles (a pooled buffer handed out without copying) is intact
+// when it is first checked and changes only when a later call reuses the
+// memory.  f returns "" when everything is as it was.
+func (o *Obs) Retain(f func() string) {
+	if o != nil {
+		o.retained = append(o.retained, f)
+	}
+}
+
+// Retained runs the closures registered with Retain and returns the first complaint.
+func (o *Obs) Retained() string {
+	if o == nil {
+		return ""
+	}
+	for _, f := range o.retained {
+		if m := Guard(f); m != "" {
+			return m
+		}
+	}
+	return ""
+}
+
+// Step marks a point between two operations of a case.  Interpreters call it
+// once per operation; it does nothing unless the kit is running two cases in
+// alternation (see Interleave), in which case the other case now performs its
+// next operation.
+func (o *Obs) Step() {
+	if o != nil && o.step != nil {
+		o.step()
+	}
+}
+
+// Interleave runs f0 and f1 in strict alternation: each runs until its next
+// Obs.Step, then the other continues, and so on until both have returned (one
+// that returns lets the other run freely).  Only one of them executes at any
+// time, so the effect is that of ONE goroutine working with two sets of live
+// objects at once: state that the code under test shares between its
+// instances (a pool, a free list, a package-level cache) can leak from one
+// case into the other, while a correct library keeps them independent and
+// both return what they return alone.
+func Interleave(f0, f1 func(o *Obs) string) (string, string) {
+	// f1 runs as a coroutine (iter.Pull switches to it directly, on the same
+	// thread, without going through the scheduler): per-P state such as a
+	// sync.Pool's private slot is therefore really shared by the two cases.
+	var m0, m1 string
+	next, stop := iter.Pull(func(yield func(struct{}) bool) {
+		stopped := false
+		m1 = Guard(func() string {
+			return f1(&Obs{step: func() {
+				if !stopped && !yield(struct{}{}) {
+					stopped = true
+				}
+			}})
+		})
+	})
+	defer stop()
+	live := true
+	m0 = Guard(func() string {
+		return f0(&Obs{step: func() {
+			if live {
+				_, live = next()
+			}
+		}})
+	})
+	for live {
+		_, live = next()
+	}
+	return m0, m1
 }
 
 // KnownIDs returns the known-finding ids this case was attributed to.
@@ -348,6 +443,7 @@ func (h *H) Fail(c any, msg string) string {
 	if h.bestCase == nil || len(js) < h.bestSize {
 		h.bestCase, h.bestSize, h.bestMsg = js, len(js), msg
 		h.bestCtx = append([][]byte(nil), h.recent...)
+		h.bestPar, h.bestMode, h.ctxUsed = h.pendPar, h.pendMode, h.pendCtx
 		h.writeReplayLocked()
 	}
 	return h.replayPath()
@@ -374,7 +470,7 @@ func (h *H) replayPath() string {
 }
 
 func (h *H) writeReplayLocked() {
-	rf := ReplayFile{Property: h.Prop, Leg: h.Leg, Tier: h.Tier, Seed: h.Seed, Message: h.bestMsg, Case: h.bestCase, Context: h.ctxUsed, Note: h.ctxNote}
+	rf := ReplayFile{Property: h.Prop, Leg: h.Leg, Tier: h.Tier, Seed: h.Seed, Message: h.bestMsg, Case: h.bestCase, Context: h.ctxUsed, Note: h.ctxNote, Par: h.bestPar, Mode: h.bestMode}
 	b, _ := json.MarshalIndent(rf, "", " ")
 	os.MkdirAll(h.ReplayTo, 0o755)
 	os.WriteFile(h.replayPath(), append(b, '\n'), 0o644)
@@ -556,6 +652,8 @@ type RunFunc[C any] func(c C, o *Obs) string
 
 type legEntry struct {
 	replay func(raw json.RawMessage, noTriage bool) (string, error)
+	// runObs runs the decoded case with the given observer (interleaved replays)
+	runObs func(raw json.RawMessage, o *Obs) (string, error)
 }
 
 var (
@@ -574,7 +672,24 @@ func Register[C any](prop, leg string, run RunFunc[C]) {
 		}
 		o := &Obs{NoTriage: noTriage}
 		return Guard(func() string { return run(c, o) }), nil
+	}, runObs: func(raw json.RawMessage, o *Obs) (string, error) {
+		var c C
+		if err := Unmarshal(raw, &c); err != nil {
+			return "", err
+		}
+		return Guard(func() string { return run(c, o) }), nil
 	}}
+}
+
+// Rare reports true for about one case in n.  (rapid draws small integers far
+// more often than 1/n, so "IntRange(0, n-1) == 0" is not a rare event; the
+// hash of a drawn 64-bit value is spread evenly.)
+func Rare(t *rapid.T, label string, n int) bool {
+	h := uint64(0x9e3779b97f4a7c15)
+	for _, b := range rapid.SliceOfN(rapid.Byte(), 6, 6).Draw(t, label) {
+		h = splitmix(h ^ uint64(b))
+	}
+	return h%uint64(n) == 0
 }
 
 // Rapid drives run with cases drawn by gen.  The number of cases comes from
@@ -586,6 +701,14 @@ func Rapid[C any](h *H, t *testing.T, gen func(*rapid.T) C, run RunFunc[C]) {
 			confirmReplay(h, run)
 		}
 	}()
+	parEvery := envInt("VK_PAR_EVERY", 8)
+	n, interleaved := 0, 0
+	var prev, stickyPartner, stickyRetain *C
+	var prevObs *Obs
+	stickyPar := false
+	var recentCs, stickyGroup []C // the last parWidth-1 passing cases; the partners of a par failure
+	var parGroup []json.RawMessage
+	defer func() { h.Count("also_interleaved_with_the_previous_case", int64(interleaved)) }()
 	rapid.Check(t, func(rt *rapid.T) {
 		c := gen(rt)
 		o := &Obs{}
@@ -593,18 +716,148 @@ func Rapid[C any](h *H, t *testing.T, gen func(*rapid.T) C, run RunFunc[C]) {
 		t0 := time.Now()
 		msg := Guard(func() string { return run(c, o) })
 		h.noteCaseTime(time.Since(t0))
+		par := 0
+		n++
+		// (once a failure has been seen in one of the two extra modes, every later
+		// call - rapid is shrinking - runs in that mode, with the same partner)
+		if msg == "" && (stickyPar || parEvery > 0 && n%parEvery == 0 && !h.frozen.Load()) {
+			// Independent instances: the same case on parWidth goroutines at once,
+			// each building its own containers.  Instances of a container type
+			// share nothing a caller can see, so every one of them must pass;
+			// package-level state in the library (a pool, a clock, a cache
+			// shared by all instances) shows up here.
+			group := []C{c}
+			if stickyGroup != nil {
+				group = append(group, stickyGroup...)
+			} else if n%(2*parEvery) == 0 {
+				group = append(group, recentCs...) // different cases side by side
+			}
+			if m := runPar(run, group...); m != "" {
+				msg, par, stickyPar = m, len(group), true
+				if stickyGroup == nil {
+					stickyGroup = append([]C{}, group[1:]...)
+				}
+				parGroup = nil
+				for _, g := range group[1:] {
+					b, _ := Marshal(g)
+					parGroup = append(parGroup, b)
+				}
+			}
+		}
+		mode := ""
+		var partner []byte
+		if msg == "" && (stickyRetain != nil || prevObs != nil && len(prevObs.retained) > 0) {
+			// results the previous case retained must have survived this case
+			po, pcase := prevObs, prev
+			if stickyRetain != nil {
+				// shrinking: run the partner afresh, then this case again, then look
+				pcase = stickyRetain
+				po = &Obs{}
+				if m := Guard(func() string { return run(*pcase, po) }); m == "" {
+					Guard(func() string { return run(c, &Obs{}) })
+				} else {
+					po = nil
+				}
+			}
+			if po != nil {
+				if m := po.Retained(); m != "" {
+					msg = m + "\n[a result obtained and verified by context[0] was found changed after this case had run: the library handed out memory it went on using]"
+					mode = "retain"
+					partner, _ = Marshal(*pcase)
+					if stickyRetain == nil {
+						pc := *pcase
+						stickyRetain = &pc
+					}
+				}
+			}
+		}
+		if msg == "" && !stickyPar && stickyRetain == nil && (stickyPartner != nil || parEvery > 0 && n%4 == 2 && prev != nil && !h.frozen.Load()) {
+			// Two live sets of objects in ONE thread of control: this case and the
+			// previous one (which passed on its own) alternate operation by operation.
+			pc := *prev
+			if stickyPartner != nil {
+				pc = *stickyPartner
+			}
+			ma, mb := Interleave(func(o *Obs) string { return run(pc, o) }, func(o *Obs) string { return run(c, o) })
+			if m := ma + mb; m != "" {
+				which := "this case"
+				if mb == "" {
+					which = "the other case (context[0])"
+				}
+				msg = m + "\n[seen in " + which + " while it alternated, operation by operation in one thread of control, with the other case of the replay file; each passes on its own]"
+				mode = "interleave"
+				partner, _ = Marshal(pc)
+				stickyPartner = &pc
+			}
+			interleaved++
+		}
 		slot.Leave()
 		js, _ := Marshal(c)
 		if msg != "" {
+			// how this very failure came about; Fail adopts it if the case becomes
+			// the smallest failing one
+			h.mu.Lock()
+			h.pendPar, h.pendMode, h.pendCtx = 0, "", nil
+			if par > 0 {
+				h.pendPar, h.pendMode, h.pendCtx = par, "par", parGroup
+			}
+			if mode != "" {
+				h.pendMode, h.pendCtx = mode, []json.RawMessage{partner}
+			}
+			h.mu.Unlock()
 			p := h.Fail(c, msg)
 			h.remember(js)
 			rt.Fatalf("VK-VIOLATION property=%s leg=%s replay=%s\n%s", h.Prop, h.Leg, p, msg)
 		}
 		h.remember(js)
+		cc := c
+		prev, prevObs = &cc, o
+		if recentCs = append(recentCs, cc); len(recentCs) > parWidth-1 {
+			recentCs = recentCs[1:]
+		}
 		if !h.frozen.Load() {
 			h.record(js, o)
+			if parEvery > 0 && n%parEvery == 0 {
+				h.Count("also_run_on_4_goroutines_at_once", 1)
+			}
 		}
 	})
+}
+
+const parWidth = 4
+
+// runPar runs the cases on as many goroutines at the same time (the first is
+// the case under test, the others are earlier cases that passed) and returns
+// the first failure.  With one case it runs parWidth copies of it.
+func runPar[C any](run RunFunc[C], cs ...C) string {
+	if len(cs) == 1 {
+		for len(cs) < parWidth {
+			cs = append(cs, cs[0])
+		}
+	}
+	msgs := make([]string, len(cs))
+	var wg sync.WaitGroup
+	start := make(chan struct{})
+	for g := range cs {
+		wg.Add(1)
+		go func(g int) {
+			defer wg.Done()
+			<-start
+			msgs[g] = Guard(func() string { return run(cs[g], &Obs{}) })
+		}(g)
+	}
+	close(start)
+	wg.Wait()
+	for g, m := range msgs {
+		if m != "" {
+			which := "this case"
+			if g > 0 {
+				which = fmt.Sprintf("context case %d", g-1)
+			}
+			return m + fmt.Sprintf("\n[seen in %s while %d goroutines each ran a case of their own at the same time, on their own instances; alone every one of them passed]", which, len(cs))
+		}
+	}
+	return ""
 }
 
 // confirmReplay checks, in this process, that the recorded failing case fails
@@ -614,10 +867,10 @@ func Rapid[C any](h *H, t *testing.T, gen func(*rapid.T) C, run RunFunc[C]) {
 // added to the replay file as context, provided that makes it fail again.
 func confirmReplay[C any](h *H, run RunFunc[C]) {
 	h.mu.Lock()
-	best, ctx := h.bestCase, h.bestCtx
+	best, ctx, mode := h.bestCase, h.bestCtx, h.bestMode
 	h.mu.Unlock()
-	if best == nil {
-		return
+	if best == nil || mode != "" {
+		return // interleaved failures carry their partner case already
 	}
 	exec := func(raw []byte) string {
 		var c C
@@ -625,7 +878,9 @@ func confirmReplay[C any](h *H, run RunFunc[C]) {
 			return ""
 		}
 		done := make(chan string, 1)
-		go func() { done <- Guard(func() string { return run(c, &Obs{}) }) }()
+		go func() {
+			done <- Guard(func() string { return run(c, &Obs{}) })
+		}()
 		select {
 		case m := <-done:
 			return m
@@ -741,11 +996,77 @@ func ReplayMain(t *testing.T) {
 		if len(rf.Context) > 0 {
 			attempts = 6
 		}
-		for a := 0; a < attempts && msg == "" && rerr == nil; a++ {
-			for _, raw := range rf.Context {
-				e.replay(raw, true) // context: results ignored
+		if rf.Par > 1 {
+			attempts = 40 // schedule-dependent
+		}
+		if rf.Mode == "retain" && len(rf.Context) > 0 {
+			for a := 0; a < 3 && msg == "" && rerr == nil; a++ {
+				o0 := &Obs{}
+				if m, err := e.runObs(rf.Context[0], o0); err != nil || m != "" {
+					msg, rerr = m, err
+					return
+				}
+				if _, err := e.runObs(rf.Case, &Obs{}); err != nil {
+					rerr = err
+					return
+				}
+				msg = o0.Retained()
 			}
-			msg, rerr = e.replay(rf.Case, os.Getenv("VK_NOTRIAGE") == "1")
+			return
+		}
+		if rf.Mode == "interleave" && len(rf.Context) > 0 {
+			for a := 0; a < 3 && msg == "" && rerr == nil; a++ {
+				var e0, e1 error
+				m0, m1 := Interleave(
+					func(o *Obs) string { m, err := e.runObs(rf.Context[0], o); e0 = err; return m },
+					func(o *Obs) string { m, err := e.runObs(rf.Case, o); e1 = err; return m })
+				msg = m0 + m1
+				if e0 != nil {
+					rerr = e0
+				}
+				if e1 != nil {
+					rerr = e1
+				}
+			}
+			return
+		}
+		for a := 0; a < attempts && msg == "" && rerr == nil; a++ {
+			if rf.Mode != "par" {
+				for _, raw := range rf.Context {
+					e.replay(raw, true) // context: results ignored
+				}
+			}
+			if rf.Par <= 1 {
+				msg, rerr = e.replay(rf.Case, os.Getenv("VK_NOTRIAGE") == "1")
+				continue
+			}
+			// rf.Par goroutines at once, each on its own instances: the case
+			// itself and its partners (or copies of the case)
+			raws := []json.RawMessage{rf.Case}
+			if rf.Mode == "par" {
+				raws = append(raws, rf.Context...)
+			}
+			for len(raws) < rf.Par {
+				raws = append(raws, rf.Case)
+			}
+			ms, es := make([]string, len(raws)), make([]error, len(raws))
+			var wg sync.WaitGroup
+			for g := range ms {
+				wg.Add(1)
+				go func(g int) {
+					defer wg.Done()
+					ms[g], es[g] = e.replay(raws[g], os.Getenv("VK_NOTRIAGE") == "1")
+				}(g)
+			}
+			wg.Wait()
+			for g := range ms {
+				if es[g] != nil {
+					rerr = es[g]
+				}
+				if ms[g] != "" && msg == "" {
+					msg = ms[g]
+				}
+			}
 		}
 	}()
 	c0 := cpuTime()
